@@ -316,15 +316,6 @@ theorem C03_Beap_prefix_complete (E : Env S) (hnd : RowsNodup E.G) (hst : Stable
     (hx : costOf E q E.G.start = some x) (hlt : x < y) : q ∈ ys :=
   prefix_complete E hnd hst hprod hpos fuel k (g, ys, fin) h p q x y hp hy hcl hx hlt
 
-/- without a filter every program is clean -/
-mutual
-  theorem clean_accept_all (f : Prog → Bool) (hf : ∀ t, f t = true) : ∀ t : Prog, clean f t = true
-    | .node F kids => by simp only [clean, hf, Bool.true_and]; exact cleanList_accept_all f hf kids
-  theorem cleanList_accept_all (f : Prog → Bool) (hf : ∀ t, f t = true) : ∀ ts : List Prog, cleanList f ts = true
-    | [] => rfl
-    | t :: ts => by simp only [cleanList, Bool.and_eq_true]; exact ⟨clean_accept_all f hf t, cleanList_accept_all f hf ts⟩
-end
-
 /-- prefix completeness without a filter: every derivable program strictly cheaper than a yielded one was yielded -/
 theorem C03_Beap_prefix_complete_nofilter (E : Env S) (hf : ∀ t, E.filter t = true) (hnd : RowsNodup E.G) (hst : StableAfter E)
     (hprod : Productive E) (hpos : PosW E)
